@@ -75,3 +75,272 @@ Definition hd_demo : list op :=
   [Mkdir [4]; SyncDir []; O_RWC 1 [4; 1]; WriteAt 1 0 [65; 66; 67] false; SyncAll 1;
    WriteAt 1 1 [88] false; SyncDir [4]; O_RWC 2 [4; 2]; WriteAt 2 0 [70] true; Crash [];
    Slurp [4; 1]; Exists [4; 2]; O_RW1 [4; 1]; WriteAt 1 3 [89] true; Unlink [4; 1]; Crash []; Slurp [4; 1]].
+
+(* ---- bytes that were never written never appear ----------------------------------------------- *)
+(* all data bytes handed to a write operation of the history *)
+Definition op_data (o : op) : bytes :=
+  match o with
+  | WriteAt _ _ data _ | Write _ data _ | Spit _ data _ => data
+  | _ => []
+  end.
+Definition written (l : list op) : bytes := flat_map op_data l.
+
+Definition okb (W c : bytes) : Prop := Forall (fun b => b = 0 \/ In b W) c.
+
+Lemma okb_nil W : okb W [].
+Proof. constructor. Qed.
+Lemma okb_mono W X c : okb W c -> okb (W ++ X) c.
+Proof.
+  unfold okb. rewrite !Forall_forall. intros H b Hb. destruct (H b Hb); [left; assumption|right; apply in_or_app; left; assumption].
+Qed.
+Lemma okb_self W c : okb (W ++ c) c.
+Proof. unfold okb. rewrite Forall_forall. intros b Hb. right. apply in_or_app. right. exact Hb. Qed.
+Lemma okb_app W a b : okb W a -> okb W b -> okb W (a ++ b).
+Proof. unfold okb. intros. apply Forall_app. split; assumption. Qed.
+Lemma okb_zeros W n : okb W (zeros n).
+Proof. unfold okb, zeros. rewrite Forall_forall. intros b Hb. apply repeat_spec in Hb. left. exact Hb. Qed.
+Lemma okb_firstn W n c : okb W c -> okb W (firstn n c).
+Proof.
+  unfold okb. rewrite !Forall_forall. intros H b Hb. apply H.
+  rewrite <- (firstn_skipn n c). apply in_or_app. left. exact Hb.
+Qed.
+Lemma okb_skipn W n c : okb W c -> okb W (skipn n c).
+Proof.
+  unfold okb. rewrite !Forall_forall. intros H b Hb. apply H.
+  rewrite <- (firstn_skipn n c). apply in_or_app. right. exact Hb.
+Qed.
+Lemma okb_resize W c n : okb W c -> okb W (resize c n).
+Proof. intro H. unfold resize. apply okb_app; [apply okb_firstn; exact H|apply okb_zeros]. Qed.
+Lemma okb_write_bytes W c off d : okb W c -> okb W d -> okb W (write_bytes c off d).
+Proof.
+  intros Hc Hd. unfold write_bytes.
+  assert (Hc' : okb W (if (length c <? off + length d)%nat then resize c (off + length d) else c))
+    by (destruct (length c <? off + length d)%nat; [apply okb_resize|]; exact Hc).
+  apply okb_app; [apply okb_firstn; exact Hc'|]. apply okb_app; [exact Hd|apply okb_skipn; exact Hc'].
+Qed.
+Lemma okb_pwrite W c off d : okb W c -> okb W d -> okb W (pwrite c off d).
+Proof. intros Hc Hd. unfold pwrite. destruct d; [exact Hc|apply okb_write_bytes; assumption]. Qed.
+
+Lemma okb_iget W m i : (forall j, okb W (iget m j)) -> okb W (iget m i).
+Proof. auto. Qed.
+Lemma okb_iset W m i c : (forall j, okb W (iget m j)) -> okb W c -> forall j, okb W (iget (iset m i c) j).
+Proof. intros H Hc j. rewrite iget_iset. destruct (i =? j); auto. Qed.
+
+(* every stored byte vector of the reference holds only written bytes and zeros *)
+Record Clean (W : bytes) (d : dworld) : Prop := {
+  cl_ino : forall i, okb W (iget (inodes (dw d)) i);
+  cl_dur : forall i, okb W (iget (ddata d) i);
+  cl_pend : forall w, In w (dpend d) -> okb W (snd w)
+}.
+
+Lemma Clean_mono W X d : Clean W d -> Clean (W ++ X) d.
+Proof. intros [A B C]. constructor; intros; apply okb_mono; auto. Qed.
+
+Lemma torn_clean W bs m : forall ws cont draws,
+  (forall i, okb W (iget cont i)) -> (forall w, In w ws -> okb W (snd w)) ->
+  forall i, okb W (iget (torn bs m cont ws draws) i).
+Proof.
+  induction ws as [|[[j off] data] ws IH]; intros cont draws Hc Hw i; cbn [torn]; [apply Hc|].
+  destruct (durable_ino m j && negb (length data =? 0)%nat).
+  - apply IH; [|intros; apply Hw; right; assumption].
+    destruct (Nat.min (hd 0%nat draws * bs) (length data) =? 0)%nat; [exact Hc|].
+    apply okb_iset; [exact Hc|]. apply okb_write_bytes; [apply Hc|].
+    apply okb_firstn. apply (Hw (j, off, data)). left; reflexivity.
+  - apply IH; [exact Hc|intros; apply Hw; right; assumption].
+Qed.
+
+Lemma iget_flat_image W cont : forall ents,
+  (forall i, okb W (iget cont i)) ->
+  forall i, okb W (iget (flat_map (fun x : path * entry => match snd x with EFile j => [(j, iget cont j)] | EDir => [] end) ents) i).
+Proof.
+  induction ents as [|[p e] ents IH]; intros H i; cbn; [apply okb_nil|].
+  destruct e as [|j]; cbn; [apply IH; exact H|]. destruct (j =? i); [apply H|apply IH; exact H].
+Qed.
+
+Lemma sstep_clean W t o :
+  (forall i, okb W (iget (inodes t) i)) ->
+  forall i, okb (W ++ op_data o) (iget (inodes (fst (sstep t o))) i).
+Proof.
+  intros H i.
+  assert (Hm : forall j, okb (W ++ op_data o) (iget (inodes t) j)) by (intro; apply okb_mono; apply H).
+  destruct o; cbn [sstep op_data] in *; try (rewrite ?app_nil_r in *; apply Hm).
+  - (* Open *)
+    unfold sopen. destruct (valid_open r w a t0 c n); cbn [negb fst inodes set_shs]; [|apply Hm].
+    destruct (parent_is_dir t p); cbn [negb fst inodes set_shs]; [|apply Hm].
+    destruct (nget (names t) p) as [[|j]|]; cbn [fst inodes set_shs]; try apply Hm.
+    + destruct n; cbn [fst inodes set_shs]; [apply Hm|].
+      destruct t0; cbn [inodes set_shs set_inode]; [|apply Hm]. apply okb_iset; [exact Hm|apply okb_nil].
+    + destruct (c || n); cbn [fst inodes set_shs]; [|apply Hm]. apply okb_iset; [exact Hm|apply okb_nil].
+  - destruct (sget (shs t) slot); apply Hm.
+  - (* WriteAt *)
+    destruct (sget (shs t) slot) as [h|]; [|apply Hm]. destruct (sw h); cbn [negb fst inodes set_inode]; [|apply Hm].
+    apply okb_iset; [exact Hm|]. apply okb_pwrite; [apply Hm|apply okb_self].
+  - destruct (sget (shs t) slot) as [h|]; [|apply Hm]. destruct (sr h); apply Hm.
+  - (* Write *)
+    destruct (sget (shs t) slot) as [h|]; [|apply Hm]. destruct (sw h); cbn [negb fst inodes set_inode set_shs]; [|apply Hm].
+    apply okb_iset; [exact Hm|]. apply okb_pwrite; [apply Hm|apply okb_self].
+  - destruct (sget (shs t) slot) as [h|]; [|apply Hm]. destruct (sr h); apply Hm.
+  - destruct (sget (shs t) slot) as [h|]; [|apply Hm].
+    match goal with |- context[(?b + off <? 0)%Z] => destruct (b + off <? 0)%Z end; apply Hm.
+  - (* SetLen *)
+    destruct (sget (shs t) slot) as [h|]; [|apply Hm]. destruct (sw h); cbn [negb fst inodes set_inode]; [|apply Hm].
+    apply okb_iset; [exact Hm|]. apply okb_resize. apply Hm.
+  - destruct (sget (shs t) slot); apply Hm.
+  - destruct (sget (shs t) slot); apply Hm.
+  - destruct (sget (shs t) slot); apply Hm.
+  - destruct (nget (names t) p) as [[|j]|]; apply Hm.
+  - destruct (parent_is_dir t p); cbn; [|apply Hm]. destruct (nget (names t) p); apply Hm.
+  - (* MkdirAll *)
+    generalize (@nil name). revert t H Hm. induction p as [|a p IH]; intros t H Hm pre; cbn [smkdir_all]; [apply Hm|].
+    destruct (nget (names t) (pre ++ [a])) as [[|j]|]; [apply IH; assumption|apply Hm|].
+    apply (IH (set_names t (nset (names t) (pre ++ [a]) EDir))); assumption.
+  - destruct (nget (names t) p) as [[|j]|]; try apply Hm. destruct p; [apply Hm|]. destruct (children t (n :: p)); apply Hm.
+  - destruct (nget (names t) p) as [[|j]|]; try apply Hm. destruct p; apply Hm.
+  - destruct (nget (names t) p) as [[|j]|]; apply Hm.
+  - (* Rename *)
+    unfold srename. destruct f as [|a f]; [apply Hm|]. destruct t0 as [|b t0]; [apply Hm|].
+    destruct (nget (names t) (a :: f)) as [[|j]|]; [| |apply Hm].
+    + destruct (parent_is_dir t (b :: t0)); cbn [negb]; [|apply Hm].
+      destruct (is_prefix (a :: f) (b :: t0)); [apply Hm|].
+      destruct (nget (names t) (b :: t0)) as [[|k]|]; try apply Hm.
+      destruct (path_eqb (a :: f) (b :: t0)); [apply Hm|].
+      destruct (children t (b :: t0)); apply Hm.
+    + destruct (parent_is_dir t (b :: t0)); cbn [negb]; [|apply Hm].
+      destruct (nget (names t) (b :: t0)) as [[|k]|]; try apply Hm;
+        destruct (path_eqb (a :: f) (b :: t0)); apply Hm.
+  - destruct (nget (names t) p) as [[|j]|]; apply Hm.
+  - destruct (nget (names t) p) as [[|j]|]; apply Hm.
+  - destruct (nget (names t) p) as [[|j]|]; apply Hm.
+  - (* Spit *)
+    destruct (parent_is_dir t p); cbn [negb fst]; [|apply Hm].
+    destruct (nget (names t) p) as [[|j]|]; cbn [fst inodes set_inode]; [apply Hm| |];
+      (apply okb_iset; [exact Hm|apply okb_self]).
+Qed.
+
+Ltac brk Hb :=
+  repeat (match type of Hb with
+          | context[match ?x with _ => _ end] => destruct x eqn:?; cbn [fst snd] in Hb
+          | context[if ?x then _ else _] => destruct x eqn:?; cbn [fst snd] in Hb
+          end);
+  try discriminate.
+
+Lemma smkdir_all_out t pre p b : snd (smkdir_all t pre p) <> OBytes b.
+Proof.
+  revert t pre. induction p as [|a p IH]; intros t pre; cbn [smkdir_all]; [discriminate|].
+  destruct (nget (names t) (pre ++ [a])) as [[|j]|]; [apply IH|discriminate|apply IH].
+Qed.
+
+Lemma sstep_out_clean W t o b :
+  (forall i, okb W (iget (inodes t) i)) -> snd (sstep t o) = OBytes b -> okb W b.
+Proof.
+  intros H Hb. destruct o; cbn [sstep] in Hb.
+  - unfold sopen in Hb. brk Hb.
+  - brk Hb.
+  - brk Hb.
+  - destruct (sget (shs t) slot) as [h|]; [|discriminate]. destruct (sr h); cbn in Hb; [|discriminate].
+    inversion Hb; subst. apply okb_firstn, okb_skipn, H.
+  - brk Hb.
+  - destruct (sget (shs t) slot) as [h|]; [|discriminate]. destruct (sr h); cbn in Hb; [|discriminate].
+    inversion Hb; subst. apply okb_firstn, okb_skipn, H.
+  - brk Hb.
+  - brk Hb.
+  - brk Hb.
+  - brk Hb.
+  - brk Hb.
+  - brk Hb.
+  - brk Hb.
+  - exfalso. eapply smkdir_all_out. exact Hb.
+  - brk Hb.
+  - brk Hb.
+  - brk Hb.
+  - unfold srename in Hb. brk Hb.
+  - brk Hb.
+  - brk Hb.
+  - brk Hb.
+  - destruct (nget (names t) p) as [[|j]|]; cbn in Hb; try discriminate. inversion Hb; subst. apply H.
+  - brk Hb.
+  - discriminate.
+  - discriminate.
+  - discriminate.
+Qed.
+
+Lemma Clean_data_sync W d i : Clean W d -> Clean W (data_sync d i).
+Proof.
+  intros [A B C]. constructor; cbn [dw ddata dpend data_sync]; auto.
+  - apply okb_iset; auto.
+  - intros w Hw. apply filter_In in Hw as [Hw _]. auto.
+Qed.
+Lemma Clean_add_pend W d i off data : Clean W d -> okb W data -> Clean W (add_pend d i off data).
+Proof.
+  intros [A B C] Hd. unfold add_pend. destruct data as [|b data]; [constructor; auto|].
+  constructor; cbn [dw ddata dpend]; auto.
+  intros w Hw. apply in_app_iff in Hw as [Hw|[<-|[]]]; [auto|exact Hd].
+Qed.
+
+Lemma dstep_clean W d o : Clean W d -> Clean (W ++ op_data o) (fst (dstep d o)).
+Proof.
+  intros HC. pose proof HC as [A B C].
+  destruct (match o with Crash _ => true | _ => false end) eqn:Hcr.
+  - destruct o; try discriminate. cbn [op_data dstep fst]. rewrite app_nil_r.
+    unfold dcrash.
+    set (cont := if (dbs d =? 0)%nat then ddata d else torn (dbs d) (dents d) (ddata d) (dpend d) draws).
+    assert (Hc : forall i, okb W (iget cont i)).
+    { unfold cont. destruct (dbs d =? 0)%nat; [exact B|]. apply torn_clean; assumption. }
+    constructor; cbn [dw inodes ddata dpend].
+    + apply iget_flat_image. exact Hc.
+    + apply iget_flat_image. exact Hc.
+    + intros w [].
+  - pose proof (sstep_clean W (dw d) o A) as Hs.
+    assert (Hbase : Clean (W ++ op_data o) (with_dw d (fst (sstep (dw d) o)))).
+    { constructor; cbn [dw with_dw ddata dpend]; [exact Hs| |]; intros; apply okb_mono; auto. }
+    unfold dstep. destruct o; try discriminate;
+      destruct (sstep (dw d) _) as [t1 x] eqn:Es; cbn [fst snd] in *;
+      destruct (is_err x); cbn [fst]; try exact Hbase.
+    + destruct (sget (shs (dw d)) slot) as [h|]; [|exact Hbase].
+      assert (H1 : Clean (W ++ data) (add_pend (with_dw d t1) (sino h) (N.to_nat off) data))
+        by (apply Clean_add_pend; [exact Hbase|apply okb_self]).
+      destruct coin; [apply Clean_data_sync|]; exact H1.
+    + destruct (sget (shs (dw d)) slot) as [h|]; [|exact Hbase].
+      match goal with |- context[add_pend ?a ?b ?c data] =>
+        assert (H1 : Clean (W ++ data) (add_pend a b c data)) by (apply Clean_add_pend; [exact Hbase|apply okb_self]) end.
+      destruct coin; [apply Clean_data_sync|]; exact H1.
+    + destruct (sget (shs (dw d)) slot) as [h|]; [|exact Hbase]. destruct coin; [apply Clean_data_sync|]; exact Hbase.
+    + destruct (sget (shs (dw d)) slot) as [h|]; [apply Clean_data_sync|]; exact Hbase.
+    + destruct (sget (shs (dw d)) slot) as [h|]; [apply Clean_data_sync|]; exact Hbase.
+    + destruct Hbase as [X Y Z]. constructor; auto.
+    + destruct data as [|b data]; [exact Hbase|]. destruct (nget (names t1) p) as [[|i]|]; try exact Hbase.
+      assert (H1 : Clean (W ++ b :: data) (add_pend (with_dw d t1) i 0 (b :: data)))
+        by (apply Clean_add_pend; [exact Hbase|apply okb_self]).
+      destruct coin; [apply Clean_data_sync|]; exact H1.
+Qed.
+
+Lemma dstep_out_clean W d o b : Clean W d -> snd (dstep d o) = OBytes b -> okb W b.
+Proof.
+  intros HC Hb.
+  destruct (match o with Crash _ => true | _ => false end) eqn:Hcr.
+  - destruct o; try discriminate; cbn in Hb; discriminate.
+  - assert (Hnc : forall x, o <> Crash x) by (intros x Hx; subst o; discriminate).
+    destruct (dstep_tree d o Hnc) as [_ Hx]. rewrite Hx in Hb.
+    eapply sstep_out_clean; [apply HC|exact Hb].
+Qed.
+
+Lemma drun_clean : forall l W d k b,
+  Clean W d -> nth k (snd (drun d l)) ONoSlot = OBytes b -> okb (W ++ written l) b.
+Proof.
+  induction l as [|o l IH]; intros W d k b HC Hb; cbn [drun] in Hb.
+  - destruct k; discriminate.
+  - destruct (dstep d o) as [d1 x] eqn:Es. destruct (drun d1 l) as [d2 xs] eqn:Er. cbn [snd] in Hb.
+    destruct k as [|k]; cbn [nth] in Hb.
+    + subst x. apply okb_mono. eapply dstep_out_clean; [exact HC|]. rewrite Es. reflexivity.
+    + unfold written. cbn [flat_map]. rewrite app_assoc. fold (written l).
+      apply (IH (W ++ op_data o) d1 k b).
+      * pose proof (dstep_clean W d o HC) as X. rewrite Es in X. exact X.
+      * rewrite Er. exact Hb.
+Qed.
+
+Lemma no_unwritten_bytes_lemma : forall bs l k b,
+  nth k (snd (drun (init_dworld bs) l)) ONoSlot = OBytes b -> okb (written l) b.
+Proof.
+  intros bs l k b H. apply (drun_clean l [] (init_dworld bs) k b); [|exact H].
+  constructor; cbn; intros; try apply okb_nil. contradiction.
+Qed.
